@@ -714,7 +714,7 @@ def corpus():
 
 
 QUICK = {"prim": 3000, "msg": 900, "req": 4200, "flow": 300, "version": 120, "cross": 1200, "big": 1 << 16}
-THOROUGH_SHARD = {"prim": 3000, "msg": 1000, "req": 3800, "flow": 350, "version": 120, "cross": 1200, "big": 1 << 20}
+THOROUGH_SHARD = {"prim": 4500, "msg": 1500, "req": 5700, "flow": 520, "version": 180, "cross": 1800, "big": 1 << 20}  # x 16 shards, one wave of 16 processes
 
 
 def _shard(args):
